@@ -12,6 +12,7 @@ of ξ = x/t.
 -/
 import EPV.Lemmas.EHEP
 import EPV.Gen.EHEPInit
+import EPV.Lemmas.Bridge.DetonTactics
 
 set_option linter.all false
 
@@ -36,9 +37,10 @@ theorem ehep_region_I_xi (p : EHEP.P) (x t : ℝ) (ha : Accepted p) (hr : p.regi
     EHEP.density p x t = 16 / 9 * p.rho_0 * EHEP.sound_speed p x t / p.D ∧
     EHEP.pressure p x t = 16 / 27 * p.rho_0 * p.D ^ 2 * (EHEP.sound_speed p x t / p.D) ^ 3 := by
   obtain ⟨a1, a2, a3, a4, a5⟩ := region_I p x t ha hr
+  have hD : p.D ≠ 0 := ha.1.ne'
   rw [a1, a2, a4, a5]
   simp only [epv_leaf]
-  refine ⟨by ring, by ring, trivial, trivial⟩
+  refine ⟨?_, ?_, ?_, ?_⟩ <;> epv_deton_feq
 
 /-- **Region I by half-planes.**  The three edge cross products `(b - a) × (P - a)` of the traced polygon
 `corners['I']` (`EHEPInit`, corners 0, 1, 2 in the code's order) are positive multiples of
@@ -65,10 +67,13 @@ theorem ehep_region_I_halfplanes (p : EHEPInit.P) (x t : ℝ) (h : EHEPInit.outc
        have hD : p.D ≠ 0 := by linarith
        have h2 : 0 < 2 * p.up + p.D := by linarith
        have h4 : 4 * p.up + 2 * p.D ≠ 0 := by linarith
-       simp only [epv_leaf]
-       refine ⟨by field_simp; ring, by field_simp; ring, by field_simp; ring, by positivity, by positivity, ?_⟩
-       rw [show (3 : ℝ) / 2 * p.xtilde / (2 * p.up + p.D) - p.xtilde / p.D
-          = p.xtilde * (p.D / 4 - p.up) * (2 / (p.D * (2 * p.up + p.D))) by field_simp; ring]
+       refine ⟨by simp only [epv_leaf]; epv_deton_feqd, by simp only [epv_leaf]; epv_deton_feqd, by simp only [epv_leaf]; epv_deton_feqd,
+         by (try simp only [epv_leaf]); positivity, by (try simp only [epv_leaf]); positivity, ?_⟩
+       -- closed form of the difference of the two corner times, whatever the constructor writes
+       generalize hA : (_ - _ : ℝ) = A
+       have hA' : A = p.xtilde * (p.D / 4 - p.up) * (2 / (p.D * (2 * p.up + p.D))) := by
+         rw [← hA]; simp only [epv_leaf]; epv_deton_feqd
+       rw [hA']
        have : 0 < 2 / (p.D * (2 * p.up + p.D)) := by positivity
        rw [mul_pos_iff_of_pos_right this, mul_pos_iff_of_pos_left (by assumption)]
        constructor <;> intro h' <;> linarith)
